@@ -88,8 +88,18 @@ def check(ctx):
         ctx.call_method(I, st, o, "fit", X, Y)
         site = ctx.site(P.method(cls, "fit"))
         tag = "1-D y" if oned else "2-D y"
-        ctx.compare("NF-API", f"fit: pxy_ = pxt_ @ pty_ [{tag}]", N, ctx.attr(st, o, "pxy_"), T("matmul", pxt.term, T("sym", "pty")), site, tag)
-        ctx.compare("NF-API", f"fit: components_ = pxt_^T [{tag}]", N, ctx.attr(st, o, "components_"), T("T", pxt.term), site, tag)
+        pxt_t, pty_t = pxt.term, T("sym", "pty")
+        if ctx.attr(st, o, "pxy_") is None or ctx.attr(st, o, "pxy_").kind == "undef":
+            # the tail is not in fit itself (it may have moved into the space-specific fits, which the run above
+            # replaces by their documented effect): read it off an un-stubbed fit, against the projectors that fit stored
+            I = ctx.interp(order=[("K", "<=", "N"), ("K", "<=", "M")], assume=protocols.assume_default)
+            st = State()
+            o = ctx.construct(I, st, cls, n_components=integer("K"), mixing=scalar("alpha", 0, 1), svd_solver="full", space="feature")
+            ctx.call_method(I, st, o, "fit", X, Y)
+            if ctx.attr(st, o, "pxt_") is not None and ctx.attr(st, o, "pty_") is not None:
+                pxt_t, pty_t = ctx.attr(st, o, "pxt_").term, ctx.attr(st, o, "pty_").term
+        ctx.compare("NF-API", f"fit: pxy_ = pxt_ @ pty_ [{tag}]", N, ctx.attr(st, o, "pxy_"), T("matmul", pxt_t, pty_t), site, tag)
+        ctx.compare("NF-API", f"fit: components_ = pxt_^T [{tag}]", N, ctx.attr(st, o, "components_"), T("T", pxt_t), site, tag)
         ctx.compare("NF-API", f"fit: mean_ = column means of X [{tag}]", N, ctx.attr(st, o, "mean_"), T("mean", X.term, ("axis", T("const", Fraction(0))), ("n", T("dim", Dim.of("N")))), site, tag)
         ctx.shape_is("R-1D", f"fit: pty_ shape [{tag}]", ctx.attr(st, o, "pty_"), ("K",) if oned else ("K", "P"), site, tag)
         ctx.shape_is("R-1D", f"fit: pxy_ shape [{tag}]", ctx.attr(st, o, "pxy_"), ("M",) if oned else ("M", "P"), site, tag)
@@ -138,6 +148,12 @@ def check(ctx):
         site = ctx.site(P.method(cls, "fit"))
         tag = f"1-D y, n_components=None, {solver}"
         kd = seen.get("k")
+        if kd is not None and (ctx.attr(st, o, "pxy_") is None or ctx.attr(st, o, "pxy_").kind == "undef"):
+            # (the tail moved into the space-specific fits: un-stubbed run, as above)
+            I = ctx.interp(assume=protocols.assume_default)
+            st = State()
+            o = ctx.construct(I, st, cls, mixing=scalar("alpha", 0, 1), svd_solver=solver, space="feature")
+            ctx.call_method(I, st, o, "fit", arr("X", "N", "M"), arr("Y", "N"))
         if ctx.ob("R-1D", f"fit: default component count resolved before the projectors are built [{tag}]", kd is not None and kd.known(), f"n_components_ = {kd!r}", site, tag):
             ctx.shape_is("R-1D", f"fit: pty_ is flattened to the fitted number of components [{tag}]", ctx.attr(st, o, "pty_"), (kd,), site, tag)
             ctx.shape_is("R-1D", f"fit: pxy_ is a coefficient vector [{tag}]", ctx.attr(st, o, "pxy_"), ("M",), site, tag)
